@@ -38,7 +38,18 @@ def pin(prop, slug, spec, typename, value, **extra):
     print('wrote replays/%s/%s.json' % (prop, slug))
 
 
+def late_pins():
+    names = ['e%d' % i for i in range(70)]
+    pin('C05', 'per-aligned-small-number-ge-64',
+        mod([('E', Ty('ENUMERATED', enum_root=[('r0', 0, False)],
+                      enum_ext=[(nm, i + 1, False) for i, nm in enumerate(names)]))]), 'E', 'e64', codec='per')
+    adds = [M('m%d' % i, Ty('BOOLEAN'), optional=True) for i in range(65)]
+    pin('C05', 'per-aligned-small-length-gt-64',
+        mod([('S', seq(M('a', Ty('BOOLEAN')), ext=adds))]), 'S', {'a': True, 'm64': True}, codec='per')
+
+
 def main():
+    late_pins()
     tz1 = datetime.timezone(datetime.timedelta(hours=1))
     pin('C01', 'oid-arc2', mod([('A', Ty('OBJECT IDENTIFIER'))]), 'A', '2.48', codec='ber')
     pin('C01', 'group-default-bits',
